@@ -99,6 +99,50 @@ class World:
         return None
 
 
+# ---- CPython's repr of typing objects (catalogue) -----------------------------------------
+def type_repr(t: Any) -> str:
+    """typing._type_repr"""
+    if isinstance(t, R):
+        if t.kind == "cls":
+            m, q = t.fields["__module__"].v, t.fields["__qualname__"].v
+            return q if m == "builtins" else f"{m}.{q}"
+        if t.kind == "td":
+            return f"{t.fields['__module__'].v}.{t.fields['__qualname__'].v}"
+        return py_repr(t)
+    if isinstance(t, K) and t.v is Ellipsis:
+        return "..."
+    return py_repr(t)
+
+
+def py_repr(t: Any) -> str:
+    if isinstance(t, R):
+        if t.kind == "cls":
+            return f"<class '{t.fields['__module__'].v}.{t.fields['__qualname__'].v}'>" if t.fields["__module__"].v != "builtins" else f"<class '{t.fields['__qualname__'].v}'>"
+        if t.kind == "any":
+            return "typing.Any"
+        if t.kind == "alias":
+            return "typing." + t.fields["name"].v
+        if t.kind == "forwardref":
+            return f"ForwardRef({t.fields['__forward_arg__'].v!r})"
+        if t.kind == "newtype":
+            return f"{t.fields['__module__'].v}.{t.fields['__name__'].v}"
+        if t.kind == "td":
+            return f"<class '{t.fields['__module__'].v}.{t.fields['__qualname__'].v}'>"
+        if t.kind == "generic":
+            o, a = t.fields["origin"].v, t.fields["args"].v
+            if o == "Union" and len(a) == 2 and NONE_T in a:
+                other = [x for x in a if x != NONE_T][0]
+                return f"typing.Optional[{type_repr(other)}]"
+            if o == "Tuple" and a == ():
+                return "typing.Tuple[()]"
+            if o == "Callable" and len(a) == 2 and isinstance(a[0], K) and isinstance(a[0].v, tuple):
+                return f"typing.Callable[[{', '.join(type_repr(x) for x in a[0].v)}], {type_repr(a[1])}]"
+            return f"typing.{o}[{', '.join(type_repr(x) for x in a)}]"
+    if isinstance(t, K):
+        return repr(t.v)
+    return "<?>"
+
+
 class CodecScenario:
     def __init__(self, repo: Repo, module: str, func_name: str, world: Optional[World] = None, inline_all: bool = True) -> None:
         self.repo = repo
@@ -125,6 +169,9 @@ class CodecScenario:
             if name in TYPING_NAMES and self.ri.cur_fi.module.imports.get(name, "").startswith("typing."):
                 return alias(name)
             mod = self.ri.cur_fi.module
+            from .common import _is_mutable_ctor
+            if name in mod.constants and _is_mutable_ctor(mod.constants[name]):
+                return base_name(name, st)  # one shared object per run
             if name in mod.constants and isinstance(mod.constants[name], (ast.Dict, ast.Set, ast.Tuple, ast.List)):
                 # table constants are evaluated in this world (so that NoneType etc. are the model's records)
                 return self.ri.interp.eval(mod.constants[name], st)
@@ -206,6 +253,9 @@ class CodecScenario:
             return self.call_hook(call, "getattr", fval, args, kwargs, st)
         if d == "inspect.unwrap" and len(args) == 1:
             a = args[0]
+            # a bound method forwards attribute access to its function, so unwrap() follows the function's chain
+            if isinstance(a, R) and a.kind == "boundmethod" and isinstance(a.fields["func"], R) and "__wrapped__" in a.fields["func"].fields:
+                a = a.fields["func"]
             while isinstance(a, R) and "__wrapped__" in a.fields:
                 a = a.fields["__wrapped__"]
             return a
@@ -214,6 +264,9 @@ class CodecScenario:
         if d == "type" and len(args) == 1:
             a = args[0]
             return S("kind:" + (a.kind if isinstance(a, R) else type(a).__name__))
+        if d == "repr" and len(args) == 1:
+            fa = st.freeze(args[0])
+            return K(repr(fa.v)) if isinstance(fa, K) and isinstance(fa.v, (str, int)) else K(py_repr(fa))
         if d == "json.dumps" and args:
             sk = kwargs.get("sort_keys", K(False))
             return R("json", of=st.freeze(args[0]), sort_keys=sk)
@@ -305,9 +358,12 @@ class CodecScenario:
                 return None
         return K(out)
 
-    def result(self, env: Dict[str, V]) -> Tuple[str, Any]:
+    last_state: Optional[State] = None
+
+    def result(self, env: Dict[str, V], carry: Optional[State] = None) -> Tuple[str, Any]:
         """('return', frozen value) | ('raise', exception class name)"""
-        outs = self.ri.run(env)
+        outs = self.ri.run(env, carry=carry)
+        self.last_state = outs[0] if outs else None
         if len(outs) != 1:
             raise AnalysisError(f"{self.fi.fq}: {len(outs)} outcomes for one scenario")
         o = outs[0]
